@@ -419,8 +419,16 @@ def replay_drift(inputs):
     rng = np.random.default_rng(seed + 1)
     # add a rigid random-walk drift to everything
     g = np.cumsum(rng.normal(scale=0.01, size=(len(traj), 1, 3)), axis=0)
+    base_pos = np.array(traj.positions)
+    if inputs.get('closed_loop'):
+        # the reference (framework) atoms only follow a rigid drift that returns to its starting point: per-frame drift is non-zero, its
+        # sum over time is zero
+        ph = 2 * np.pi * np.arange(len(traj)) / (len(traj) - 1)
+        g = (0.04 * np.stack([np.sin(ph), np.sin(2 * ph), 1 - np.cos(ph)], axis=-1))[:, None, :]
+        frame_cols = [k for k, sp_ in enumerate(traj.species) if sp_.symbol != 'Li']
+        base_pos[:, frame_cols] = base_pos[0, frame_cols]
     from gemdat.trajectory import Trajectory
-    tr = Trajectory(species=traj.species, coords=traj.positions + g, lattice=traj.get_lattice().matrix, time_step=traj.time_step, metadata={'temperature': 300, 'tag': 'x'})
+    tr = Trajectory(species=traj.species, coords=base_pos + g, lattice=traj.get_lattice().matrix, time_step=traj.time_step, metadata={'temperature': 300, 'tag': 'x'})
     symbols = [s.symbol for s in tr.species]
     bad = []
 
@@ -462,7 +470,7 @@ def replay_drift(inputs):
             bad.append('second correction changes the motion')
         # rigid translation invariance
         g2 = np.cumsum(rng.normal(scale=0.01, size=(len(traj), 1, 3)), axis=0)
-        tr2 = Trajectory(species=traj.species, coords=traj.positions + g + g2, lattice=traj.get_lattice().matrix, time_step=traj.time_step, metadata={'temperature': 300, 'tag': 'x'})
+        tr2 = Trajectory(species=traj.species, coords=base_pos + g + g2, lattice=traj.get_lattice().matrix, time_step=traj.time_step, metadata={'temperature': 300, 'tag': 'x'})
         c3 = tr2.apply_drift_correction(fixed_species=fixed)
         if well_sampled and np.abs(tr2.displacements).max() < 0.45 and not np.allclose(c3.displacements, dc, atol=1e-9):
             bad.append('adding a rigid time-dependent translation changes the corrected motion')
@@ -477,11 +485,11 @@ def replay_drift(inputs):
 def bounded_drift(tier, seed):
     import numpy as np
     n = 12 if tier == 'quick' else 300
-    st = Stand('C13.drift.random', f'{n} synthetic multi-species trajectories (Species and Element objects, 20 frames, 7 atoms, random-walk rigid drift), '
+    st = Stand('C13.drift.random', f'{n} synthetic multi-species trajectories (Species and Element objects, 20 frames, 7 atoms, random-walk rigid drift; every fourth case a closed-loop drift whose time sum is zero), '
                'str / list / set selections', 'seeded random; every case non-trivial (non-zero drift); distinct by seed')
     rng = np.random.default_rng(seed + 1313)
     for c in range(n):
-        inp = {'seed': int(rng.integers(1, 10 ** 6)), 'species_cls': ['Element', 'Species', 'SpeciesOx'][c % 3]}
+        inp = {'seed': int(rng.integers(1, 10 ** 6)), 'species_cls': ['Element', 'Species', 'SpeciesOx'][c % 3], 'closed_loop': c % 4 == 1}
         r = st.guard(replay_drift, inp)
         if r is None:
             continue
